@@ -100,6 +100,15 @@ def run(ctx, build, verdict, ev):
                 if not vlib.same_float(r, float(a)):
                     verdict.add_violation(f"{name}:array-vs-scalar", f"{name}.hedge: array evaluation {float(a)!r} differs from scalar evaluation {r!r} at x={float(x)!r}", {"hedge": name, "x": float(x), "scalar": r, "array": float(a)})
                     break
+        try:
+            with np.errstate(all="ignore"):
+                lst = [float(v) for v in probe[:6]]
+                got = np.asarray(real.hedge(lst), dtype=float)
+                want = [float(real.hedge(v)) for v in lst]
+            if got.shape != (len(lst),) or not all(vlib.same_float(g, w) for g, w in zip(got, want)):
+                verdict.add_violation(f"{name}:list-argument", f"{name}.hedge(list) is not the elementwise result", {"hedge": name, "x": lst})
+        except Exception as ex:  # noqa
+            verdict.add_violation(f"{name}:list-argument", f"{name}.hedge(list) raises {type(ex).__name__}: {ex}", {"hedge": name, "x": lst})
         checker = f"fun c => let '(x, e, m, t) := c in feq (@{name}_hedge float (NumF m t) x) e"
         groups.append(("float * float * bool * oracle", checker, lits))
     if clone_diff:
